@@ -108,6 +108,7 @@ pub struct Recorder {
     pub nontrivial: BTreeSet<u64>,
     pub samples: Vec<String>,
     cur_case_text: String,
+    cur_fp: Option<u64>,
     pub rule: String,
 }
 impl Recorder {
@@ -125,6 +126,7 @@ impl Recorder {
             nontrivial: BTreeSet::new(),
             samples: Vec::new(),
             cur_case_text: String::new(),
+            cur_fp: None,
             rule: rule.to_string(),
         }
     }
@@ -133,6 +135,7 @@ impl Recorder {
         self.case_no = n;
         self.cases += 1;
         self.cur_case_text.clear();
+        self.cur_fp = None;
         let l = if tag.is_empty() { format!("#case {n}") } else { format!("#case {n} {tag}") };
         self.line(&l.clone(), &l);
     }
@@ -148,10 +151,16 @@ impl Recorder {
         self.lines += 1;
     }
     /// mark the current case as non-trivial (by the rule given to `new`)
+    /// (idempotent per case: a case counts once however often this is called)
     pub fn nontrivial(&mut self) {
         let fp = fnv(self.cur_case_text.as_bytes());
+        let first = self.cur_fp.is_none();
+        if let Some(old) = self.cur_fp.take() {
+            self.nontrivial.remove(&old);
+        }
         self.nontrivial.insert(fp);
-        if self.samples.len() < 5 {
+        self.cur_fp = Some(fp);
+        if first && self.samples.len() < 5 {
             self.samples.push(self.cur_case_text.clone());
         }
     }
